@@ -49,3 +49,28 @@ def rolling_diff(workdir, lmax, nseed, seed):
             cases = int(tok[6:])
     return {"ok": r.returncode == 0, "text": out, "calls": calls, "cases": cases, "wall_s": time.time() - t0,
             "cmd": "roll_diff %d %d %d" % (lmax, nseed, seed)}
+
+
+def mh_diff(workdir, iters, seed, repo=REPO):
+    os.makedirs(workdir, exist_ok=True)
+    objs = []
+    for name in ("mh_sha1", "mh_sha256"):
+        d = name
+        outer = "sha1_for_mh_sha1.c" if name == "mh_sha1" else "sha256_for_mh_sha256.c"
+        for c in ("%s.c" % name, "%s_avx512.c" % name, "%s_block_base.c" % name, "%s_update_base.c" % name, "%s_finalize_base.c" % name, outer):
+            objs.append(cc("%s/%s" % (d, c), os.path.join(workdir, name + "_" + c.replace(".c", ".o")), extra=["-I" + os.path.join(repo, "mh_sha1")]))
+        for a in ("block_sse", "block_avx", "block_avx2", "block_avx512", "multibinary"):
+            objs.append(nasm("%s/%s_%s.asm" % (d, name, a), os.path.join(workdir, "%s_%s.o" % (name, a))))
+    exe = os.path.join(workdir, "mh_diff")
+    r = subprocess.run(["gcc", "-O1", "-I" + os.path.join(repo, "include"), os.path.join(VERIF, "native", "mh_diff.c")] + objs + ["-o", exe],
+                       capture_output=True, text=True)
+    if r.returncode:
+        raise RuntimeError("link failed: " + r.stderr[-600:])
+    t0 = time.time()
+    r = subprocess.run([exe, str(iters), str(seed)], capture_output=True, text=True, timeout=1800)
+    cases = 0
+    for tok in r.stdout.split():
+        if tok.startswith("cases="):
+            cases = int(tok[6:])
+    return {"ok": r.returncode == 0, "text": r.stdout, "calls": cases, "cases": cases, "wall_s": time.time() - t0,
+            "cmd": "mh_diff %d %d" % (iters, seed)}
